@@ -138,7 +138,7 @@ def shard(part, shard_i, nshards, tier, seed, deadline):
 def run_part(ctx):
     before = ctx.total.counters.get("executions", 0)
     hs = harnesses(ctx.tier)
-    ctx.sharded(shard, nshards=len(hs))
+    ctx.sharded(shard, nshards=len(hs), deadline=ctx.sub_deadline(0.5))
     ex = ctx.total.counters.get("executions", 0) - before
     ctx.cov["e3_newthread_handover"] = {
         "schedules_explored": ex,
